@@ -6,6 +6,7 @@ python3 - <<'PY'
 import sys, os, glob
 sys.path.insert(0, 'lib')
 import vf
+print('regen', vf.regen_all(print))
 vf.coq_makefile()
 ok, log = vf.coq_make([f + 'o' for f in vf.coq_files() if not f.startswith('extract/')], timeout=3000, keep_going=False)
 print(log[-3000:])
